@@ -58,6 +58,8 @@ def make_requests():
         ("memo", "S1", "{ a { id } an { id } n { id } as { id } u { ... on A { self { name } } ... on B { other { name } } } }", [("field", "Query.u"), ("field", "A.self"), ("field", "Query.n")], {}),
         ("list_in_await", "S1", "{ a { kids { name } nkids { name } } }", [("field", "Query.a"), ("field", "A.kids"), ("items", "A.nkids"), ("field", "B.name")], {}),
         ("item_error", "S1", "{ a { nkids { name ... on A { nn } } } }", [("items", "A.nkids"), ("fielderr", "A.nn"), ("field", "A.name"), ("field", "B.name")], {}),
+        # the same below a list whose items are non-null while the list is nullable: the error of an asynchronously completed item nulls the list
+        ("item_error_nonnull_items", "S1", "{ a { kids { name ... on A { nn } } name } }", [("items", "A.kids"), ("fielderr", "A.nn"), ("field", "A.name"), ("rt", "Node")], {}),
         ("merged_abstract", "S1", "{ a { nkids { ... on A { a } } nkids { ... on B { b } name } } }", [("items", "A.nkids"), ("field", "A.a"), ("field", "B.b")], {}),
         ("merged_union", "S1", "{ ns { id } ns { ... on A { a } ... on B { b } } u { ... on B { nn } } u { ... on B { b } } }", [("items", "Query.ns"), ("field", "Query.u"), ("field", "B.b")], {}),
         ("merged", "S1", "{ x: a { name } a { name nn } ...F } fragment F on Query { a { id self { id } } }", [("field", "Query.a"), ("field", "A.name"), ("field", "A.self")], {}),
